@@ -4,7 +4,8 @@
     is not before [c] and the definitions reported so far are those of [ds1] followed by whatever
     was completed after them.  Proof: the round-trip machinery (RoundTrip.v) carries the parser to
     the boundary before [c]; from there the invariant of Totality.v, instantiated with the lower
-    bound L = length (print ds1), bounds every later error position from below. *)
+    bound L = length of the printed prefix, bounds every later error position from below.  The prefix
+    may use any line-end run [cr] (LF, CRLF, trailing spaces) and blank lines between definitions. *)
 From Coq Require Import ZArith List Bool Lia.
 From CanVerif Require Import Dbc.Ast Dbc.Scanner Dbc.DecFloat Dbc.Parser Dbc.ScannerInv Dbc.ScanLemmas
   Dbc.Printer Dbc.RoundTrip Dbc.Totality.
@@ -14,6 +15,8 @@ Open Scope Z_scope.
 Section Loc.
   Variable il id : Z -> bool.
   Variable F : nat.
+  Variable cr : bytes.
+  Hypothesis Hcr : cr_ok cr.
 
   Notation the_loop := (parse_loop_with il id F (parse_bit_timing il id F) (parse_unknown il id F) (parse_message il id F)).
 
@@ -26,42 +29,59 @@ Section Loc.
   Qed.
 
   (** number of lines of a printed file *)
-  Fixpoint lines_of (ds : list sdef) : Z :=
-    match ds with
+  Fixpoint lines_of (its : list item) : Z :=
+    match its with
     | [] => 0
-    | d :: t => def_lines d + lines_of t
+    | (g, d) :: t => nl_count g + def_lines d + lines_of t
     end.
 
-  (** the loop over a well-formed prefix [ds] followed by [c] reaches the boundary before [c] *)
-  Lemma parse_loop_prefix : forall c ds f defs ctx line off st,
-    ctx_agrees ctx defs -> wf_defs ctx ds -> rest_top F c -> (length (print ds) + length c + 4 <= F)%nat ->
-    Ready il id F line off (print ds ++ c) st -> (length ds <= f)%nat ->
-    exists st', the_loop f defs st = the_loop (f - length ds) (defs ++ elab_from ctx line off ds) st'
-                /\ Ready il id F (line + lines_of ds) (off + blen (print ds)) c st'.
+  (** whitespace still pending at the boundary after the items: the line end of the last definition *)
+  Definition slack_after (its : list item) (n : nat) : nat := match its with [] => n | _ => SL cr end.
+
+  Lemma rest_top_items_c : forall its c ctx, wf_items ctx its -> rest_top F cr c ->
+    (SL cr + length (print_items cr its ++ c) + 3 <= F)%nat -> rest_top F cr (print_items cr its ++ c).
   Proof.
-    intros c. induction ds as [|d ds IH]; intros f defs ctx line off st Hag Hw Hc HF HR Hf.
-    - exists st. cbn [print elab_from length app lines_of] in *. rewrite app_nil_r, Nat.sub_0_r, blen_nil, !Z.add_0_r.
+    intros its c ctx Hw Hc HF. destruct its as [|[g d] its]; [exact Hc|].
+    destruct Hw as (Hg & (Hd & _) & _). cbn [print_items] in *.
+    repeat rewrite <- app_assoc in *. exists g, (print_def cr d ++ print_items cr its ++ c).
+    split; [reflexivity|]. split; [exact Hg|]. right.
+    destruct (print_def_head cr Hcr d (print_items cr its ++ c) Hd) as (kw & ch & r & E & Hk & Hch & Hnc & Hl & Hns).
+    exists kw, ch, r. rewrite !app_length in HF. split; [exact E|]. split; [exact Hk|]. split; [exact Hch|]. split; [exact Hnc|].
+    split; [lia|exact Hns].
+  Qed.
+
+  (** the loop over a well-formed prefix [its] followed by [c] reaches the boundary before [c] *)
+  Lemma parse_loop_prefix : forall c its f defs ctx n line off st,
+    ctx_agrees ctx defs -> wf_items ctx its -> (its <> [] -> rest_top F cr c) ->
+    (n + length (print_items cr its) + length c + 4 <= F)%nat ->
+    Ready il id F n line off (print_items cr its ++ c) st -> (length its <= f)%nat ->
+    exists st', the_loop f defs st = the_loop (f - length its) (defs ++ elab_items cr ctx line off its) st'
+                /\ Ready il id F (slack_after its n) (line + lines_of its) (off + blen (print_items cr its)) c st'.
+  Proof.
+    intros c. induction its as [|[g d] its IH]; intros f defs ctx n line off st Hag Hw Hc0 HF HR Hf.
+    - exists st. cbn [print_items elab_items length app lines_of slack_after] in *. rewrite app_nil_r, Nat.sub_0_r, blen_nil, !Z.add_0_r.
       split; [reflexivity|exact HR].
-    - destruct Hw as (Hd & Hw'). cbn [print length] in *. rewrite <- app_assoc in HR.
-      rewrite app_length in HF. destruct f as [|f]; [lia|].
-      assert (Hok : rest_top F (print ds ++ c)).
-      { destruct ds as [|d' ds']; [exact Hc|]. destruct Hw' as ((Hd' & _) & _). right. cbn [print].
-        rewrite <- app_assoc.
-        destruct (print_def_head d' (print ds' ++ c) Hd') as (kw & ch & r & E & Hk & Hch & Hnc & Hl & Hns).
-        exists kw, ch, r. split; [exact E|]. split; [exact Hk|]. split; [exact Hch|]. split; [exact Hnc|].
-        split; [|exact Hns]. cbn [print] in HF. rewrite app_length in HF. lia. }
-      destruct (step_def il id F d (print ds ++ c) defs ctx line off Hag Hd Hok) with (st := st)
-        as (kw & st1 & st2 & Ep & Ek & Ed & HR2); [rewrite app_length; lia|exact HR|].
+    - assert (Hc : rest_top F cr c) by (apply Hc0; discriminate).
+      destruct Hw as (Hg & Hd & Hw'). cbn [print_items length] in *. repeat rewrite <- app_assoc in HR.
+      do 2 rewrite app_length in HF. destruct f as [|f]; [lia|].
+      pose proof (print_def_len_ge cr Hcr d (proj1 Hd)) as Hlen.
+      assert (Hok : rest_top F cr (print_items cr its ++ c)) by (apply (rest_top_items_c its c _ Hw' Hc); rewrite app_length; lia).
+      pose proof (HR g (print_def cr d ++ print_items cr its ++ c) eq_refl Hg) as HR0.
+      destruct (step_def il id F cr Hcr d (print_items cr its ++ c) defs ctx (n + length g) (line + nl_count g) (off + blen g) Hag Hd Hok)
+        with (st := st) as (kw & st1 & st2 & Ep & Ek & Ed & HR2); [rewrite app_length; lia|exact HR0|].
       cbn [parse_loop_with]. rewrite Ep. cbn [t_typ kwtok]. change (TIdent =? EOF) with false. cbv iota.
-      unfold bind. rewrite Ek, Ed. cbn [elab_from].
-      destruct (IH f (defs ++ [elab_def_ctx ctx line off d]) (ctx_step ctx d) (line + def_lines d) (off + blen (print_def d)) st2
-                  (ctx_agrees_step ctx defs line off d Hag) Hw' Hc ltac:(lia) HR2 ltac:(lia))
+      unfold bind. rewrite Ek, Ed. cbn [elab_items].
+      destruct (IH f (defs ++ [elab_def_ctx cr ctx (line + nl_count g) (off + blen g) d]) (ctx_step ctx d) (SL cr)
+                  (line + nl_count g + def_lines d) (off + blen g + blen (print_def cr d)) st2
+                  (ctx_agrees_step cr ctx defs _ _ d Hag) Hw' (fun _ => Hc) ltac:(lia) HR2 ltac:(lia))
         as (st' & E & HR').
       exists st'. split.
       + rewrite E. cbn [Nat.sub]. rewrite <- app_assoc. reflexivity.
-      + rewrite blen_app. cbn [lines_of]. replace (line + (def_lines d + lines_of ds)) with (line + def_lines d + lines_of ds) by lia.
-        replace (off + (blen (print_def d) + blen (print ds))) with (off + blen (print_def d) + blen (print ds)) by lia.
-        exact HR'.
+      + cbn [lines_of slack_after]. rewrite !blen_app.
+        replace (line + (nl_count g + def_lines d + lines_of its)) with (line + nl_count g + def_lines d + lines_of its) by lia.
+        replace (off + (blen g + (blen (print_def cr d) + blen (print_items cr its))))
+          with (off + blen g + blen (print_def cr d) + blen (print_items cr its)) by lia.
+        destruct its; [exact HR'|exact HR'].
   Qed.
 End Loc.
 
@@ -84,41 +104,56 @@ Proof.
   split; [split; [lia|intros _; discriminate]|]. split; [lia|intros _; lia].
 Qed.
 
-Theorem error_local_partial : forall il id ds1 c pos k defs,
-  wf_file ds1 -> Forall byte c ->
+Theorem error_local_partial : forall il id cr its c pos k defs,
+  cr_ok cr -> wf_items [] its -> Forall byte c ->
   (c = [] \/ exists kw ch r, c = kw ++ ch :: r /\ is_ident kw /\ ascii ch /\ idc ch = false
                             /\ bytes_eqb kw kw_signal = false) ->
-  parse_bytes il id (print ds1 ++ c) = Err pos k defs ->
-  (exists more, defs = elaborate ds1 ++ more) /\ blen (print ds1) <= p_offset pos <= blen (print ds1 ++ c).
+  parse_bytes il id (print_items cr its ++ c) = Err pos k defs ->
+  (exists more, defs = elaborate_file cr its ++ more)
+  /\ blen (print_items cr its) <= p_offset pos <= blen (print_items cr its ++ c).
 Proof.
-  intros il id ds1 c pos k defs Hw Hbc Hc H. unfold parse_bytes, parse in H.
-  set (F := fuel_for (print ds1 ++ c)) in *.
-  assert (HFlen : F = (length (print ds1) + length c + 4)%nat) by (unfold F, fuel_for; rewrite app_length; reflexivity).
-  pose proof (length_print_ge ds1) as Hge.
-  assert (Hok : rest_top F c).
-  { destruct Hc as [->|(kw & ch & r & -> & Hk & Hch & Hnc & Hns)]; [left; reflexivity|right].
+  intros il id cr its c pos k defs Hcr Hw Hbc Hc H. unfold parse_bytes, parse in H.
+  set (T := print_items cr its) in *.
+  set (F := fuel_for (T ++ c)) in *.
+  assert (HFlen : F = (length T + length c + 4)%nat) by (unfold F, fuel_for; rewrite app_length; reflexivity).
+  pose proof (length_items_ge cr its) as Hge. fold T in Hge.
+  assert (HT : its <> [] -> (SL cr <= length T)%nat).
+  { intros Hne. destruct its as [|[g d] its']; [contradiction|]. destruct Hw as (_ & (Hd & _) & _).
+    unfold T. cbn [print_items]. rewrite !app_length. pose proof (print_def_len_ge cr Hcr d Hd). lia. }
+  assert (Hsl : (slack_after cr its 0 <= length T)%nat) by (destruct its; [cbn; lia|apply HT; discriminate]).
+  assert (Hok : its <> [] -> rest_top F cr c).
+  { intros Hne. specialize (HT Hne). exists [], c. split; [reflexivity|]. split; [exact blank_block_nil|].
+    cbn [length]. rewrite Nat.add_0_r.
+    destruct Hc as [->|(kw & ch & r & -> & Hk & Hch & Hnc & Hns)]; [left; split; [reflexivity|lia]|right].
     exists kw, ch, r. split; [reflexivity|]. split; [exact Hk|]. split; [exact Hch|]. split; [exact Hnc|].
     split; [|exact Hns]. rewrite app_length in HFlen. cbn [length] in HFlen. lia. }
-  destruct (parse_loop_prefix il id F c ds1 F [] [] 1 0 (p_init (print ds1 ++ c)) (fun n => eq_refl) Hw Hok ltac:(lia)) as (st' & E & HR);
-    [apply ready_init; lia|lia|].
-  rewrite E in H. cbn [app] in H. fold (elaborate ds1) in H. rewrite Z.add_0_l in HR.
-  destruct HR as (HR1 & HR2).
+  assert (Hh : head_ascii (T ++ c)).
+  { unfold T. destruct its as [|[g d] its'].
+    - cbn [print_items app]. destruct Hc as [->|(kw & ch & r & -> & (c0 & t & -> & H0 & _) & _)]; [exact I|]. cbn. apply (id0_ge c0 H0).
+    - destruct Hw as ((Hg & _) & (Hd & _) & _). cbn [print_items]. destruct g as [|a g].
+      + cbn [app]. destruct (print_def_head cr Hcr d (print_items cr its' ++ c) Hd) as (kw & ch & r & E & (c0 & t & -> & H0 & _) & _).
+        rewrite <- app_assoc, E. cbn. apply (id0_ge c0 H0).
+      + cbn. inversion Hg. apply blank_ascii. assumption. }
+  destruct (parse_loop_prefix il id F cr Hcr c its F [] [] 0 1 0 (p_init (T ++ c)) (fun n => eq_refl) Hw Hok ltac:(fold T; lia)) as (st' & E & HR);
+    [apply ready_init; [exact Hh|lia]|lia|].
+  rewrite E in H. cbn [app] in H. fold (elaborate_file cr its) in H. rewrite Z.add_0_l in HR. fold T in HR.
+  pose proof (ready_here il id F _ _ _ _ _ HR) as (HR1 & HR2).
   destruct Hc as [->|(kw & ch & r & -> & Hk & Hch & Hnc & _)].
   - (* nothing follows: the loop ends with Ok *)
-    exfalso. destruct (HR1 eq_refl) as (tok & st'' & Ep & Ht).
-    destruct (F - length ds1)%nat as [|f'] eqn:Ef; [lia|]. cbn [parse_loop_with] in H. rewrite Ep, Ht in H. discriminate H.
+    exfalso. destruct (HR1 eq_refl ltac:(cbn [length] in HFlen; lia)) as (tok & st'' & Ep & Ht).
+    destruct (F - length its)%nat as [|f'] eqn:Ef; [lia|]. cbn [parse_loop_with] in H. rewrite Ep, Ht in H. discriminate H.
   - destruct (HR2 kw ch r eq_refl Hk Hch Hnc) as (ll & Ep).
     { rewrite app_length in HFlen. cbn [length] in HFlen. lia. }
     rewrite (loop_after_peek il id F _ _ _ _ _ Ep) in H.
-    set (N := blen (print ds1 ++ kw ++ ch :: r)).
-    assert (HN : blen (print ds1) + blen kw + 1 + blen r = N).
+    set (N := blen (T ++ kw ++ ch :: r)).
+    assert (HN : blen T + blen kw + 1 + blen r = N).
     { unfold N. rewrite blen_app, blen_app, blen_cons. lia. }
     assert (Hbr : Forall byte r).
     { apply Forall_app in Hbc. destruct Hbc as (_ & Hb). inversion Hb; assumption. }
-    pose proof (pinv_canon N (1 + lines_of ds1) (blen (print ds1)) kw ch r ll Hk Hch Hbr (blen_nonneg _) HN) as Hi.
+    pose proof (pinv_canon N (1 + lines_of its) (blen T) kw ch r ll Hk Hch Hbr (blen_nonneg _) HN) as Hi.
     assert (HF : N + 1 < Z.of_nat F) by (unfold N, blen; rewrite HFlen, !app_length; cbn [length]; lia).
-    pose proof (parse_loop_spec il id F N (blen (print ds1)) (blen_nonneg _) HF (F - length ds1) (elaborate ds1) _ Hi) as Hspec.
-    assert (Hfo : fuel_ok N (F - length ds1) (canon (1 + lines_of ds1) (blen (print ds1)) kw ch r ll)).
+    pose proof (parse_loop_spec il id F N (blen T) (blen_nonneg _) HF (F - length its) (elaborate_file cr its) _ Hi) as Hspec.
+    assert (Hfo : fuel_ok N (F - length its) (canon (1 + lines_of its) (blen T) kw ch r ll)).
     { unfold fuel_ok, nu, canon. cbn [p_look PS kwtok t_pos p_offset]. unfold N, blen. rewrite HFlen, !app_length. cbn [length]. lia. }
     specialize (Hspec Hfo). rewrite H in Hspec. cbn [outcome_ok] in Hspec.
     split; [|exact Hspec]. apply parse_loop_defs_prefix in H. exact H.
@@ -127,6 +162,6 @@ Qed.
 (** an instance of the hypotheses: after the well-formed line "BS_:" the corrupted comment
     [CM_ $] fails at the '$' (offset 9 >= 5) with exactly the BS_ definition reported *)
 Lemma error_local_instance : forall il id,
-  parse_bytes il id (print [SBitTiming None] ++ [67; 77; 95; 32; 36])
-  = Err {| p_line := 2; p_column := 5; p_offset := 9 |} ESyntax (elaborate [SBitTiming None]).
+  parse_bytes il id (print_items [13] [([10], SBitTiming None)] ++ [67; 77; 95; 32; 36])
+  = Err {| p_line := 3; p_column := 5; p_offset := 11 |} ESyntax (elaborate_file [13] [([10], SBitTiming None)]).
 Proof. intros. vm_compute. reflexivity. Qed.
